@@ -443,3 +443,39 @@ impl Iterator for FragBitVecIterator {
 //     }
 //   }
 // }
+
+// Verification accessors (see /verif/DESIGN.md). Compiled only with `--cfg rustdds_verif`.
+#[cfg(rustdds_verif)]
+impl RtpsReaderProxy {
+  /// projection of the protocol state kept for one matched reader
+  pub(crate) fn verif_state(
+    &self,
+  ) -> (
+    SequenceNumber,
+    Vec<SequenceNumber>,
+    Vec<SequenceNumber>,
+    bool,
+    Vec<(SequenceNumber, Vec<usize>)>,
+  ) {
+    (
+      self.all_acked_before,
+      self.unsent_changes.iter().copied().collect(),
+      self.pending_gap.iter().copied().collect(),
+      self.repair_mode,
+      self
+        .frags_requested
+        .iter()
+        .map(|(sn, bv)| {
+          (
+            *sn,
+            bv.iter()
+              .enumerate()
+              .filter(|(_, b)| *b)
+              .map(|(i, _)| i)
+              .collect(),
+          )
+        })
+        .collect(),
+    )
+  }
+}
